@@ -1707,6 +1707,12 @@ class MayRaise:
                 if missing is not None:
                     # the conversion runs _missing_ for every value that is not a member: what it can raise leaves the conversion
                     out |= self.call_summary(missing, q, ctx, e, recv=None)
+                    bad_ret = self._missing_returns_members(missing)
+                    esc2 = self.site(ctx, e, "enum-missing-hook", "TypeError", bad_ret is None,
+                                     "every return of _missing_ is None or built from the class" if bad_ret is None else
+                                     f"{q.split('.')[-1]}._missing_ has `{bad_ret}`: the enum machinery raises TypeError for a value that is neither None nor a member")
+                    if esc2:
+                        out.add(esc2)
                 return out
             init = self.m.find_method(q, "__init__")
             if q == "sansldap.asn1.ASN1Reader" and e.args and isinstance(e.args[0], (ast.Name, ast.Attribute)):
@@ -1769,6 +1775,33 @@ class MayRaise:
             found = {q for q, c in self.m.classes.items() if c.is_enum}
         memo[key] = sorted(found)
         return memo[key]
+
+    def _missing_returns_members(self, fi: FuncInfo) -> Optional[str]:
+        """The enum machinery accepts from `_missing_` only None or a member of the class; anything else (the raw value handed
+        back "so unknown values pass through") makes the conversion raise TypeError.  Returns the offending return, or None."""
+        if isinstance(fi.node, ast.Lambda):
+            return None
+        ps = fi.params()
+        cls_name = ps[0] if ps else "cls"
+
+        def from_cls(e: ast.expr, depth: int = 0) -> bool:
+            if isinstance(e, ast.Constant) and e.value is None:
+                return True
+            if any(isinstance(x, ast.Name) and x.id == cls_name for x in ast.walk(e)):
+                return True
+            if isinstance(e, ast.Name) and depth < 3:
+                binds = [a.value for a in walk_no_nested(fi.node) if isinstance(a, (ast.Assign, ast.AnnAssign)) and a.value is not None and
+                         any(isinstance(t_, ast.Name) and t_.id == e.id for t_ in (a.targets if isinstance(a, ast.Assign) else [a.target]))]
+                return bool(binds) and all(from_cls(b, depth + 1) for b in binds)
+            if isinstance(e, ast.IfExp):
+                return from_cls(e.body, depth) and from_cls(e.orelse, depth)
+            if isinstance(e, ast.Call) and isinstance(e.func, ast.Attribute) and isinstance(e.func.value, ast.Call) and norm(e.func.value.func) == "super":
+                return True
+            return False
+        for r in walk_no_nested(fi.node):
+            if isinstance(r, ast.Return) and r.value is not None and not from_cls(r.value):
+                return norm(r)[:60]
+        return None
 
     def _missing_total(self, fi: FuncInfo) -> bool:
         # every return in _missing_ returns a non-None value except under `not isinstance(value, int)`
@@ -1938,6 +1971,9 @@ class MayRaise:
                 missing = self.m.find_method(q, "_missing_")
                 if missing is not None:
                     out |= self.call_summary(missing, q, ctx, e, recv=None)
+                    bad_ret = self._missing_returns_members(missing)
+                    add("enum-missing-hook", "TypeError", bad_ret is None, "every return of _missing_ is None or built from the class" if bad_ret is None else
+                        f"{q.split('.')[-1]}._missing_ has `{bad_ret}`: the enum machinery raises TypeError for a value that is neither None nor a member")
             return out
         if name == "int":
             if e.args:
